@@ -23,11 +23,17 @@ def U(u):
 
 
 def neighbors(vert, d=0, u=2, filterfunc=None):
-    return _H().neighbors(vert, D(d), U(u), filterfunc)
+    res = _H().neighbors(vert, D(d), U(u), filterfunc)
+    out = list(res)
+    spoil(res)          # the list belongs to the caller: the harness keeps a copy and scribbles on the original
+    return out
 
 
 def find_links(v1, v2, ds=True, u=2, filterfunc=None):
-    return _H().find_links(v1, v2, ds, U(u), filterfunc)
+    res = _H().find_links(v1, v2, ds, U(u), filterfunc)
+    out = set(res)
+    spoil(res)
+    return out
 
 
 def kw(d=None, u=None, **more):
@@ -38,3 +44,47 @@ def kw(d=None, u=None, **more):
     if u is not None:
         out["unknown_handling"] = U(u)
     return out
+
+
+# ---------------------------------------------------------------------------------------------------------
+# "What the caller does with what it got": every container the library hands out belongs to the caller, who may
+# change it at will; and every call that is documented to BUILD something returns a new object.
+
+class _Junk:
+    """A foreign object a caller might put into a list / set it received."""
+
+    def __repr__(self):
+        return "<junk put there by the caller>"
+
+
+JUNK = _Junk()
+_RECENT = {}
+
+
+def spoil(x):
+    """The caller modifies the container it received (after having read it): nothing of that may show up anywhere."""
+    try:
+        if isinstance(x, list):
+            x.append(JUNK)
+            x.reverse()
+        elif isinstance(x, set):
+            x.add(JUNK)
+        elif isinstance(x, dict):
+            x[JUNK] = JUNK
+    except Exception:  # noqa - read-only views are fine
+        pass
+    return x
+
+
+def fresh(kind, obj, where=""):
+    """`obj` was just returned by a call documented to build / return a NEW object of this kind: it must not be one
+    of the objects returned by the previous such calls in this process (which the harness keeps alive, spoiled)."""
+    from eglib.driver import Violation
+
+    recent = _RECENT.setdefault(kind, [])
+    for old in recent:
+        if old is obj:
+            raise Violation("returned-object-not-fresh:" + kind, f"{where}: the object returned is the very object an earlier, unrelated call returned (a shared result instead of a new one)")
+    recent.append(obj)
+    del recent[:-24]
+    return obj
